@@ -416,9 +416,11 @@ func checkC18(c *Ctx) {
 }
 
 func checkC19(c *Ctx) {
-	c.R.Clauses = append(c.R.Clauses, "H1: every writer of counts maintains totalCount", "H4: Export and Import agree on every Snapshot field")
+	c.R.Clauses = append(c.R.Clauses, "H1: every writer of counts maintains totalCount", "H4: Export and Import agree on every Snapshot field",
+		"H5: value arithmetic is shifted at 64 bits", "H6: Export copies the counts")
 	c.R.NotCov = append(c.R.NotCov, "quantile precision", "bucket arithmetic", "reachability of the invariant panics")
 	ruleH(c)
+	ruleH56(c)
 }
 
 func checkC20(c *Ctx) {
